@@ -3,6 +3,8 @@ package git
 import (
 	"bytes"
 	"os"
+	"slices"
+	"strings"
 
 	"github.com/go-git/go-git/v6/config"
 	"github.com/go-git/go-git/v6/plumbing"
@@ -36,8 +38,14 @@ func (w *Worktree) smudgeRacilyCleanEntries(idx *index.Index) {
 		return
 	}
 
+	// In name order: the entries of an index assembled by indexBuilder come in
+	// map order, and the order of the file-system operations below should
+	// not depend on it.
+	entries := slices.Clone(idx.Entries)
+	slices.SortFunc(entries, func(a, b *index.Entry) int { return strings.Compare(a.Name, b.Name) })
+
 	var cfg *config.Config
-	for _, e := range idx.Entries {
+	for _, e := range entries {
 		if e.Size == 0 || e.ModifiedAt.IsZero() || e.ModifiedAt.Before(idx.ModTime) {
 			continue
 		}
